@@ -937,6 +937,15 @@ class Emitter:
                 vv = vt.pointee()
                 vv.const = False
                 return pad + "%s = %s;" % (vv.decl(name), self.expr(init[0]))
+            if s0.get("kind") in ("CallExpr", "CXXMemberCallExpr", "CXXOperatorCallExpr") and \
+                    re.search(r"^\s*const\s|\sconst\s*&\s*$", v["type"].get("desugaredQualType") or v["type"]["qualType"]):
+                txt = self.expr(init[0])
+                if not txt.lstrip("(").startswith("*"):
+                    # const reference bound to the result of a call that the boundary answers by value (a shim, not an lvalue in C)
+                    self.report["const references bound to by-value boundary calls turned into value variables"] += 1
+                    vv = vt.pointee()
+                    vv.const = False
+                    return pad + "%s = %s;" % (vv.decl(name), txt)
             self.cur["refs"][v["id"]] = True
             return pad + "%s = &(%s);" % (vt.decl(name), self.lvalue(init[0]))
         st = "static " if v.get("storageClass") == "static" else ""
